@@ -18,7 +18,7 @@ RULE = ("[family `provisional`: fixed-width operands over backward labels whose 
         "unresolvable roots, odd path strings (escapes, empty, `.`, `//`). The outcome class (ok bytes / error kind) must equal the "
         "model's, and must never be a panic, abort or time-out. non-trivial = the reply is an error")
 EXHAUSTIVE = {"quick": False, "thorough": False}
-ASSUMPTIONS = ["machine stack depth is outside the model: inputs nested tens of thousands deep (D16) are a listed finding, kept out of the random streams by generator bounds; likewise D29 (dozens of unclosed nested calls: exponential parse time)",
+ASSUMPTIONS = ["machine stack depth is outside the model: inputs nested tens of thousands deep (D16) are a listed finding, kept out of the random streams by generator bounds",
                "the pair-tree shape the parse layer relies on and the sufficiency of the walk's fuel are proved for the parser MODEL (C14_parse)"]
 
 VOCAB = ["push1", "push2", "push32", "push0", "pc", "jumpdest", "%push", "%macro", "%end", "%def", "%import", "%include",
@@ -58,10 +58,10 @@ def cases(rng, tier):
     cs += valid
     for c in list(valid):
         src = bytes.fromhex(c["line"].split(" ")[1]).decode()
-        if len(src) > 3000 or "deep-args" in c.get("tags", []):
-            # (a call nested hundreds deep with its closing parentheses cut off is the listed finding D29 — exponential
-            # backtracking of the parser — and is kept out of the random stream; its witness is in the corpus)
+        if len(src) > 3000:
             continue
+        # (mutations of the deep-args cases — calls nested hundreds deep with their closing parentheses cut off — are what
+        # exposed D29, exponential backtracking of the parser, repaired by 06a1b4c; they stay in the stream)
         for _ in range(2):
             m = mutate(rng, src)
             cs.append({"line": "asm " + C.txt(m), "tags": ["near-valid"], "src": m[:300]})
@@ -135,7 +135,7 @@ MANIFEST = {
             "under the shape specification the walk relies on) and C14_preprocess_parse (through any nesting of imports / includes). "
             "PARTIAL BY NATURE: (a) the pest interpreter and the pair-tree walk are models of pest 2.1.3 and parse/*.rs, tied to the real "
             "parser on valid / near-valid / token-soup / raw inputs and file graphs (outcome classes must equal the model's, never panic "
-            "/ abort / time-out); (b) machine stack depth is not modelled: D16 (20000-term sum aborts) is a listed finding; so is D29 (exponential parse time on nested calls whose parentheses are not closed: 40 levels take a quarter of an hour) — time is not what the fuel-based termination theorems bound. "
+            "/ abort / time-out); (b) machine stack depth is not modelled: D16 (20000-term sum aborts) is a listed finding; D29 (exponential parse time on nested calls whose parentheses were not closed) was found by this stream and repaired (06a1b4c) — time is not what the fuel-based termination theorems bound. "
             "Trusted: Lean kernel; the models; child-process isolation and the per-request wall-clock limit (6 s; 10 s on the parallel path) of the harness runner.",
     "technique": "Lean 4 panic-freedom proofs over models with explicit panic outcomes + differential fuzzing in isolated child processes",
 }
